@@ -45,6 +45,12 @@ BLIND = {  # did the owning check exist, unchanged, before the change was seen?
     'b8-C09': 'yes - MISSED; then C09.R12 = C10.R9 signature -> subgraph table with signatures listed out of subgraph order',
     'b8-C10': 'yes - MISSED (same site as b8-C09, found independently); then C10.R9',
     'b8-C11': 'yes - MISSED; then C11.R6 "loading a list == adding its entries in order" over all lists of up to 3 entries',
+    'b9-C02': 'yes - only ANALYSIS-ERROR (scope builder shape); then the scope table in C10.R1 and scope-sensitive rows in the whole-pipeline simulation (C02.R9: graph output has type INT8, expected float)',
+    'b9-C12': 'yes - MISSED; then a string-valued float-casting rule in the C12.R7 alphabet and a faithful `is` between str and enum member in the interpreter',
+    'b9-C14': 'yes - MISSED; the effect analysis now treats next(<iterator>) as a mutation: C14.R3 reports the module-level counter',
+    'b9-C17': 'yes - caught (C17.R7 / C17.R11 narrow range at 16 bits)',
+    'b9-C18': 'yes - caught (C18.R3, C18.R9 metric argument order)',
+    'b9-C19': 'yes - MISSED; then C19.R12: model-wide tables are append-only in every transformation',
     'b3-C18': 'yes (written minutes before) - MISSED, then fixed', 'b3-C19': 'yes - caught by C10.R2 only, C19.R8 added', 'b3-C01': 'yes - MISSED (declared blind spot), then fixed',
 }
 
